@@ -1,4 +1,4 @@
-import PsyVerif.Lemmas.ArrayLowerSem
+import PsyVerif.Lemmas.ArrayLowerRed
 /-! # C06 — array-syntax and intrinsic lowering preserve semantics
 
 Model: `Model/ArrayLower.lean` (namespace `C06`).  The model follows the code with the
@@ -119,6 +119,63 @@ theorem C06_minmax2code_sound (isMax : Bool) (res tmp : Nat) (a : Expr) (rest : 
   exact prefix_then_asg (mmCode isMax res tmp a rest) s res (mmExpr isMax a rest) (fun y => y = tmp) σ
     (exec_mmCode isMax res tmp a rest σ hne hargs) (fun y hy h => htmp (h ▸ hy)) hres
 
+
+/-- **Sum/Product/Minval/Maxval2LoopTrans (with the repairs of the patch)**: whenever the
+transformation succeeds, `acc = init; DO idx …; [IF (mask)] acc = acc ⊕ expr(idx); [tgt = ctx[acc]]`
+computes the original assignment `tgt = ctx[INTRINSIC(expr, mask)]`, where the value of the intrinsic
+is the fold of ⊕ over the (masked) elements of the section in element order, starting from
+0 / 1 / HUGE / -HUGE — for all stores, all extents (including empty) and all bounds/strides. -/
+theorem C06_reduction2loop_sound (idx tmp : Nat) (r : RedIn) (lead : Sec) (rest : List Sec) (s : Stmt)
+    (hlead : r.expr.secs = lead :: rest) (ht : transRed idx tmp r = .ok s)
+    (hf : RedFresh idx tmp r) (σ : Store) :
+    AgreeOn (fun y => y ≠ idx ∧ y ≠ tmp ∧ y ≠ r.hole) (exec s σ) (execRedOrig r lead σ) :=
+  reduction2loop_sound_aux idx tmp r lead rest s hlead ht hf σ
+
+/-- DIM arguments are refused -/
+theorem C06_reduction_dim_refused (idx tmp : Nat) (r : RedIn) (h : r.dim = true) :
+    transRed idx tmp r = .error .dim := by simp [transRed, h]
+
+/-- the fold that defines MAXVAL is the maximum: it bounds every unmasked element from above
+(for element values ≥ -HUGE the initial value never wins over a present element) -/
+theorem C06_foldRed_max_ge (f m : Int → Int) (n : Nat) (init : Int) (k : Nat) (hk : k < n) (hm : m k ≠ 0) :
+    f k ≤ foldRed .max f m n init := by
+  induction n with
+  | zero => omega
+  | succ n ih =>
+    simp only [foldRed]
+    by_cases hkn : k = n
+    · subst hkn; rw [if_pos hm]; simp only [evalBin]; split <;> omega
+    · have := ih (by omega)
+      split
+      · simp only [evalBin]; split <;> omega
+      · exact this
+
+/-- **DotProduct2CodeTrans (partial)**: sound when both vectors have the same declared lower bound. -/
+theorem C06_dot_sound_partial (res i : Nat) (v1 v2 : Vec) (s : Asg) (hlb : v1.lb = v2.lb) (hri : res ≠ i)
+    (hr : res ≠ v1.arr ∧ res ≠ v2.arr) (hi : i ∉ s.vars) (hi2 : i ≠ v1.arr ∧ i ≠ v2.arr) (σ : Store) :
+    AgreeOn (fun y => y ≠ i) (exec (dot2code res i v1 v2 s) σ) (execDotOrig res v1 v2 s σ) :=
+  dot_sound_partial res i v1 v2 s hlb hri hr hi hi2 σ
+
+def dotStore : Store := storeOf [((0, 1, 0), 1), ((0, 2, 0), 2), ((0, 3, 0), 3), ((1, 0, 0), 5), ((1, 1, 0), 7), ((1, 2, 0), 11)]
+
+/-- `x = DOT_PRODUCT(a, c)` with `a(1:3)`, `c(0:2)`: the generated loop reads `c(1:3)`. -/
+theorem C06_dot_lower_bound_counterexample :
+    (exec (dot2code 9 8 ⟨0, 1, 3⟩ ⟨1, 0, 2⟩ ⟨.sc 2, .var 9⟩) dotStore) (2, 0, 0)
+      ≠ (execDotOrig 9 ⟨0, 1, 3⟩ ⟨1, 0, 2⟩ ⟨.sc 2, .var 9⟩ dotStore) (2, 0, 0) := by decide
+
+def mvStore : Store :=
+  storeOf [((1, 0, 2), 1), ((1, 0, 3), 2), ((1, 1, 2), 3), ((1, 1, 3), 4), ((2, 1, 0), 5), ((2, 2, 0), 6)]
+
+/-- `r = MATMUL(q, v)` with `r(1:2)`, `q(0:1,2:3)`, `v(1:2)`: the loop writes `r(0:1)` and reads `q(:,1:2)`. -/
+theorem C06_matvec_lower_bound_counterexample :
+    matvecAligned ⟨0, 1, 2⟩ ⟨1, 0, 1, 2, 3⟩ ⟨2, 1, 2⟩ = false ∧
+    (exec (matvecCode 8 9 ⟨0, 1, 2⟩ ⟨1, 0, 1, 2, 3⟩ ⟨2, 1, 2⟩) mvStore) (0, 2, 0)
+      ≠ (execMatvec ⟨0, 1, 2⟩ ⟨1, 0, 1, 2, 3⟩ ⟨2, 1, 2⟩ mvStore) (0, 2, 0) := by decide
+
+example : (execMatvec ⟨0, 1, 2⟩ ⟨1, 0, 1, 2, 3⟩ ⟨2, 1, 2⟩ mvStore) (0, 2, 0) = 39 := by decide
+example : (execDotOrig 9 ⟨0, 1, 3⟩ ⟨1, 0, 2⟩ ⟨.sc 2, .var 9⟩ dotStore) (2, 0, 0) = 52 := by decide
+
+
 /-! ## Non-vacuity and sanity evaluations -/
 
 /-- `a(2:6) = a(2:6) + b(1:5) * s` with `m(i, 1:3) = m(j, 1:3)`-style same-range self reference: accepted -/
@@ -145,5 +202,30 @@ example : (exec (sign2code 8 9 10 11 (.var 0) (.lit 0) absWitness)
     (storeOf [((0, 0, 0), -2), ((1, 0, 0), -3)])) (0, 0, 0) = -1 := by decide
 example : (exec (minmax2code true 8 9 (.var 0) [.var 1, .lit 7, .lit 4] absWitness)
     (storeOf [((0, 0, 0), 2), ((1, 0, 0), -3)])) (0, 0, 0) = 4 := by decide
+
+
+/-- `x = 1 + MAXVAL(a(2:6) + c(1:5), mask = b(3:7) > 0) * 2` (a,b,c = arrays 0,1,2; x = var 3; hole = 9) -/
+def redWitness : RedIn :=
+  { kind := .maxval,
+    expr := .bin .add (.sec ⟨0, .r1, .lit 2, .lit 6, .lit 1⟩) (.sec ⟨2, .r1, .lit 1, .lit 5, .lit 1⟩),
+    mask := some (.bin .gt (.sec ⟨1, .r1, .lit 3, .lit 7, .lit 1⟩) (.sc (.lit 0))),
+    dim := false, tgt := .sc 3, hole := 9,
+    ctx := .bin .add (.lit 1) (.bin .mul (.var 9) (.lit 2)), huge := 1000 }
+
+example : RedFresh 7 8 redWitness :=
+  ⟨by decide, by decide, by decide, by decide, by decide, by decide, by decide⟩
+example : ∃ s, transRed 7 8 redWitness = .ok s := ⟨_, rfl⟩
+example : (match transRed 7 8 redWitness with
+    | .ok s => (exec s (storeOf [((0, 2, 0), 4), ((0, 3, 0), 9), ((2, 1, 0), 1), ((2, 2, 0), 1), ((1, 3, 0), 1)])) (3, 0, 0)
+    | .error _ => 0) = 11 := by decide
+-- increment: `x = x + SUM(a(1:3))` goes through a temporary and ends with `x = x + tmp`
+example : (match transRed 7 8 ⟨.sum, .sec ⟨0, .r1, .lit 1, .lit 3, .lit 1⟩, none, false, .sc 3, 9,
+      .bin .add (.var 3) (.var 9), 1000⟩ with
+    | .ok s => (exec s (storeOf [((0, 2, 0), 4), ((0, 3, 0), 9), ((3, 0, 0), 100)])) (3, 0, 0)
+    | .error _ => 0) = 113 := by decide
+-- differently strided sections are refused
+example : transRed 7 8 ⟨.sum, .bin .mul (.sec ⟨0, .r1, .lit 1, .lit 9, .lit 2⟩) (.sec ⟨1, .r1, .lit 1, .lit 5, .lit 1⟩),
+    none, false, .sc 3, 9, .var 9, 1000⟩ = .error .stride := rfl
+example : (⟨0, 1, 3⟩ : Vec).lb = (⟨1, 1, 3⟩ : Vec).lb := rfl
 
 end C06
